@@ -10,3 +10,6 @@ import WowVerif.Props.C03
 #print axioms Wv.C03.accepts_own_output_fails_witness
 #print axioms Wv.C03.sparse_decode_tokens
 #print axioms Wv.C03.selector_examples
+#print axioms Wv.C03.sparse_roundtrip
+#print axioms Wv.C03.sparse_empty_bare
+#print axioms Wv.C03.sparse_stored_roundtrip
